@@ -50,6 +50,66 @@ func isIndexWrite(e ast.Expr) bool {
 	return ok
 }
 
+// copyIsDeep: provider.copy() must give the copy its own map for every map-typed field of provider
+// (an annotation applied to the copy writes into that map)
+func copyIsDeep(repo string) (bool, []string) {
+	f := parseFile(filepath.Join(repo, "nject.go"))
+	var mapFields []string
+	for _, d := range f.Decls {
+		gd, ok := d.(*ast.GenDecl)
+		if !ok {
+			continue
+		}
+		for _, sp := range gd.Specs {
+			ts, ok := sp.(*ast.TypeSpec)
+			if !ok || ts.Name.Name != "provider" {
+				continue
+			}
+			st, ok := ts.Type.(*ast.StructType)
+			if !ok {
+				continue
+			}
+			for _, fl := range st.Fields.List {
+				if _, ok := fl.Type.(*ast.MapType); ok {
+					for _, n := range fl.Names {
+						mapFields = append(mapFields, n.Name)
+					}
+				}
+			}
+		}
+	}
+	assignedOther := map[string]bool{} // present in the literal with something else than its own mapCopy
+	found := false
+	for _, d := range f.Decls {
+		fd, ok := d.(*ast.FuncDecl)
+		if !ok || fd.Name.Name != "copy" || fd.Recv == nil || fd.Body == nil {
+			continue
+		}
+		found = true
+		ast.Inspect(fd.Body, func(n ast.Node) bool {
+			kv, ok := n.(*ast.KeyValueExpr)
+			if !ok {
+				return true
+			}
+			k, ok := kv.Key.(*ast.Ident)
+			if !ok {
+				return true
+			}
+			if src(kv.Value) != "mapCopy(fm."+k.Name+")" {
+				assignedOther[k.Name] = true
+			}
+			return true
+		})
+	}
+	var shared []string
+	for _, m := range mapFields {
+		if assignedOther[m] { // absent from the literal = nil map in the copy: not shared
+			shared = append(shared, m)
+		}
+	}
+	return found && len(mapFields) > 0 && len(shared) == 0, shared
+}
+
 func extractWrites(repo, outDir string) {
 	var sites []writeSite
 	characterizeCopies := false
@@ -218,7 +278,9 @@ func extractWrites(repo, outDir string) {
 	}
 	w.WriteString("]\n\n")
 	fmt.Fprintf(&w, "/-- characterizeFuncDetails starts from `fm.copy()` in both branches: everything after it in Bind works on per-Bind copies -/\ndef characterizeCopies : Bool := %v\n\n", characterizeCopies)
-	fmt.Fprintf(&w, "/-- every caller of reorderNonFinal first replaces c.contents by a private array -/\ndef reorderCallersPrivate : Bool := %v\n\nend Nject.Gen\n", callersOK)
+	deep, sharedMaps := copyIsDeep(repo)
+	fmt.Fprintf(&w, "/-- every caller of reorderNonFinal first replaces c.contents by a private array -/\ndef reorderCallersPrivate : Bool := %v\n\n", callersOK)
+	fmt.Fprintf(&w, "/-- provider.copy() gives the copy its own map for every map-typed field (shared: %v) -/\ndef copyDeepCopiesMaps : Bool := %v\n\nend Nject.Gen\n", sharedMaps, deep)
 	if err := os.WriteFile(filepath.Join(outDir, "Writes.lean"), w.Bytes(), 0o644); err != nil {
 		fmt.Fprintln(os.Stderr, err)
 		os.Exit(1)
